@@ -19,7 +19,7 @@ LEVEL_TEXT = ('Proof: Coq theorem, unbounded in the number of frames, channels a
               'frame k is the field view of the state after applying records 1..k (a "same" record repeats the previous '
               'frame), for both channel layouts, wrapped or not; corollary: two encodings with the same state sequence '
               'decode identically. Tie: channel layouts regenerated from the source; differential run + direct oracle.')
-LEVEL_NOTE = 'Trusted: Coq kernel, hand-written model + record encoder, translator for channel layouts, extraction, harness. No axioms.'
+LEVEL_NOTE = 'Trusted: Coq kernel, hand-written model + record encoder, translator for channel layouts, extraction, harness. No axioms. Enc tie: the Coq encoders enc_inner / enc_rec of the theorems are evaluated by coqc on the run\'s record lists and compared with the harness encoder.'
 TECHNIQUE = 'Coq proof by induction over records with the invariant "buffer = state k" + model/implementation correspondence'
 
 def enc_record(rec):
